@@ -223,6 +223,12 @@ void Server::Impl::commitRespond(const TcpServer::ConnToken &ct, int index, Resp
     Connection *conn = static_cast<Connection*>(tcp_server_.getContext(ct));
     TBOX_ASSERT(conn != nullptr);
 
+    //! nothing may follow the respond of the request that asked to close the connection
+    if (index > conn->close_index) {
+        delete res;
+        return;
+    }
+
     if (index == conn->res_index) {
         //! 将当前的数据直接发送出去
         {
